@@ -50,6 +50,7 @@ type PfcpServer struct {
 	rcvCh        chan ReceivePacket
 	srCh         chan report.SessReport
 	trToCh       chan TransactionTimeout
+	done         chan struct{} // closed when the main loop has stopped
 	conn         *net.UDPConn
 	recoveryTime time.Time
 	driver       forwarder.Driver
@@ -70,6 +71,7 @@ func NewPfcpServer(cfg *factory.Config, driver forwarder.Driver) *PfcpServer {
 		rcvCh:        make(chan ReceivePacket, RECEIVE_CHANNEL_LEN),
 		srCh:         make(chan report.SessReport, REPORT_CHANNEL_LEN),
 		trToCh:       make(chan TransactionTimeout, TRANS_TIMEOUT_CHANNEL_LEN),
+		done:         make(chan struct{}),
 		recoveryTime: time.Now(),
 		driver:       driver,
 		rnodes:       make(map[string]*RemoteNode),
@@ -88,9 +90,10 @@ func (s *PfcpServer) main(wg *sync.WaitGroup) {
 
 		s.log.Infoln("pfcp server stopped")
 		s.stopTrTimers()
-		close(s.rcvCh)
-		close(s.srCh)
-		close(s.trToCh)
+		// Producers (receiver, report sources, timer callbacks) may still be
+		// running: tell them to give up instead of closing the channels they
+		// send on.
+		close(s.done)
 		wg.Done()
 	}()
 
@@ -214,7 +217,10 @@ func (s *PfcpServer) receiver(wg *sync.WaitGroup) {
 		n, addr, err := s.conn.ReadFrom(buf)
 		if err != nil {
 			s.log.Errorf("%+v", err)
-			s.rcvCh <- ReceivePacket{}
+			select {
+			case s.rcvCh <- ReceivePacket{}:
+			case <-s.done:
+			}
 			break
 		}
 
@@ -226,9 +232,12 @@ func (s *PfcpServer) receiver(wg *sync.WaitGroup) {
 		}
 		msgBuf := make([]byte, n)
 		copy(msgBuf, buf)
-		s.rcvCh <- ReceivePacket{
+		select {
+		case s.rcvCh <- ReceivePacket{
 			RemoteAddr: addr,
 			Buf:        msgBuf,
+		}:
+		case <-s.done:
 		}
 	}
 }
@@ -271,11 +280,17 @@ func (s *PfcpServer) UpdateNodeID(n *RemoteNode, newId string) {
 }
 
 func (s *PfcpServer) NotifySessReport(sr report.SessReport) {
-	s.srCh <- sr
+	select {
+	case s.srCh <- sr:
+	case <-s.done:
+	}
 }
 
 func (s *PfcpServer) NotifyTransTimeout(trType TransType, trID string) {
-	s.trToCh <- TransactionTimeout{TrType: trType, TrID: trID}
+	select {
+	case s.trToCh <- TransactionTimeout{TrType: trType, TrID: trID}:
+	case <-s.done:
+	}
 }
 
 func (s *PfcpServer) PopBufPkt(seid uint64, pdrid uint16) ([]byte, bool) {
